@@ -6,6 +6,7 @@
    Proofs/OwnP.v.  [own_decode md S p fuel t s] : (outcome, leaked); md = MSync / MAsync are the two template
    instances (decode / decode_async); p ranges over binary, binary-LE, compact; the input state [s] ranges over
    ALL byte strings (every truncation and every corruption is an instance) and all reader contexts. *)
+From PV Require Import Thrift.AppMsg.
 From PVGen Require Import Gen GenSpec GenKeep GenAsync Own Proofs.OwnP.
 Open Scope Z_scope.
 
@@ -100,3 +101,57 @@ Theorem C19_no_leak_keep_partial : forall S t, no_heap_list_keep S t ->
   forall p f s, snd (own_decode_keep S p f t s) = [].
 Proof. exact no_leak_keep_partial. Qed.
 Print Assumptions C19_no_leak_keep_partial.
+
+(* ---------- the message level: read_message_begin, body, read_message_end on one protocol object ---------- *)
+(* own_message md kb S p fuel b s : the envelope (PV.Thrift.Msg.r_message_begin / AppMsg.a_message_begin), then the body
+   -- an emitted type [BType t] (decode, decode of a keep build [kb], decode_async) or the runtime's
+   ApplicationException [BAppEx] -- with the ledger: [mo_ident] what the identifier owns while it lives (a slice of the
+   input for names beyond FastStr's inline capacity read by the in-memory readers, a heap string from the async readers),
+   [mo_leaked] what the body decoder never drops, [mo_retained] what objects that outlive the call still hold once
+   identifier, value / error, protocol object and input have been dropped. *)
+
+(* tie to the source: the regenerated inventory of process-wide / thread-local retention sites of pilota/src/thrift
+   (static, thread_local!, OnceLock / OnceCell / LazyLock / Lazy, lazy_static!, Box::leak, mem::forget, ManuallyDrop)
+   is the list the model accounts for, each with a valid reason why it cannot retain anything; a new table, pool or
+   cache in the Thrift runtime makes this theorem fail to compile *)
+Theorem C19_retention_inventory :
+  map fst accounted_retain_sites = retain_sites /\ forallb inert_justified accounted_retain_sites = true /\
+  retain_flags = map site_retains retain_sites.
+Proof. exact (conj retention_inventory_accounted (conj retention_inventory_justified retain_flags_projection)). Qed.
+Print Assumptions C19_retention_inventory.
+
+(* whatever the envelope and the body do, on every input: nothing the identifier held survives it *)
+Theorem C19_message_ident_released : forall md kb S p fuel b s,
+  mo_retained (own_message md kb S p fuel b s) = [].
+Proof. exact message_ident_released. Qed.
+Print Assumptions C19_message_ident_released.
+
+(* FULL STATEMENT: forall md kb S p fuel b s, mo_leaked (own_message ..) = [] /\ mo_retained (own_message ..) = [].
+   Proved part: every body outside the class of F-19a (body_no_heap_list: ApplicationException, every async decoder,
+   sync decoders of types from which no list with a Drop-needing element type is reachable), every protocol, every
+   input (all truncations and corruptions of envelope and body), every reader context.  Missing: the class of F-19a,
+   where the body decoder itself leaks (C19_message_leak_is_body_leak: exactly what C19_leak_exact describes). *)
+Theorem C19_message_no_leak_partial : forall md kb S p fuel b s, body_no_heap_list md kb S b ->
+  mo_leaked (own_message md kb S p fuel b s) = [] /\ mo_retained (own_message md kb S p fuel b s) = [].
+Proof. exact message_no_leak_partial. Qed.
+Print Assumptions C19_message_no_leak_partial.
+
+Theorem C19_message_leak_is_body_leak : forall md kb S p fuel b s id s1,
+  m_message_begin md p s = Ok (id, s1) ->
+  mo_leaked (own_message md kb S p fuel b s) = snd (own_body md kb S p fuel b s1) /\
+  mo_ident (own_message md kb S p fuel b s) = name_holds md (m_name id).
+Proof. exact message_leak_is_body_leak. Qed.
+Print Assumptions C19_message_leak_is_body_leak.
+
+(* erasing the ghosts gives read_message_begin followed by the emitted decoder *)
+Theorem C19_message_erase_sync : forall S p fuel t s,
+  mo_outcome (own_message MSync false S p fuel (BType t) s) =
+  (let* (id, s1) := r_message_begin p s in let* (v, s2) := gen_decode S p fuel t s1 in Ok (id, v, s2)).
+Proof. exact message_erase_sync. Qed.
+Print Assumptions C19_message_erase_sync.
+
+Theorem C19_message_erase_async : forall S kb p fuel t s,
+  mo_outcome (own_message MAsync kb S p fuel (BType t) s) =
+  (let* (id, s1) := a_message_begin p s in let* (v, s2) := gen_decode_async S p fuel t s1 in Ok (id, v, s2)).
+Proof. exact message_erase_async. Qed.
+Print Assumptions C19_message_erase_async.
